@@ -516,6 +516,11 @@ func (m *MonC05) OnEnd(w *World) []Violation {
 		var granting, valid *accessAnswer
 		var badTrig *trigger
 		for _, a := range cands {
+			if a.T < stim && b.triggerBetween(e.CID, name, a.T, stim, false) != nil {
+				// an earlier access answer was invalidated before this call was made
+				m.nontriv = true
+				m.class("trigger_between_earlier_answer_and_call")
+			}
 			if a.HasRes && canCallRef(a.Call, method) {
 				granting = a
 				if a.T >= stim {
